@@ -1,6 +1,6 @@
 #![allow(non_camel_case_types, non_snake_case, dead_code)]
 #[tarpc::service]
-pub trait Rej27 {
-    async fn new(a0: i32, a1: i32) -> String;
+pub trait Rej35 {
+    async fn r#fn(ctx: tarpc::context::Context) -> String;
 }
 fn main() {}
